@@ -453,11 +453,11 @@ def run(ctx: Ctx, col: Collector) -> None:
         "loss masks apply to the schema-relevant requests (0005/000C) only; eavesdropping off; one gateway, one controller; UFH zones not generated",
         "virtual time: until converged and stable, at most 50 h without faults and 74 / 98 h with light / heavy faults (the 0005/000C poll interval is 24 h; a repeated probe can time out again in the burst that opens a round)",
     ]
-    ctx.parallel(explore, ctx.shards(ctx.n(400, 12_000), per_shard_min=5, size="small"), col)  # <= 5 zones, no faults: minutes of virtual time
+    ctx.parallel(explore, ctx.shards(ctx.n(400, 8_000), per_shard_min=5, size="small"), col)  # <= 5 zones, no faults: minutes of virtual time
     if col.violations and ctx.quick:
         col.note("second phase (large systems, loss masks) skipped: the first phase already holds violations (each violating case costs a whole horizon)")
     else:
-        ctx.parallel(explore, ctx.shards(ctx.n(32, 2_000), per_shard_min=1, size="any"), col)  # large systems and loss masks: up to 50 virtual hours
+        ctx.parallel(explore, ctx.shards(ctx.n(32, 1_200), per_shard_min=1, size="any"), col)  # large systems and loss masks: up to 50 virtual hours
     # most cases are small systems that converge within the first virtual minutes; if that share collapses without any violation the
     # early exit (or the model) is broken and every case is paying for a whole horizon
     ctx.floors = [("dhw", "cfg", 0.2), ("ctl-as-sensor", "cfg", 0.1), ("high-zones", "cfg", 0.2), ("converged-in-first-round", "cfg", 0.5)]
